@@ -2,6 +2,7 @@ package sim
 
 import (
 	"sync"
+	"sync/atomic"
 
 	"github.com/massnetorg/mass-core/database"
 	"github.com/massnetorg/mass-core/wire"
@@ -14,6 +15,16 @@ type CDB struct {
 	mu   sync.Mutex
 	hook func(method string) error
 	n    map[string]int
+	// passive: pure forwarding without the counting mutex (see WDB.SetPassive)
+	passive int32
+}
+
+func (c *CDB) SetPassive(on bool) {
+	v := int32(0)
+	if on {
+		v = 1
+	}
+	atomic.StoreInt32(&c.passive, v)
 }
 
 func WrapChainDB(inner database.Db) *CDB { return &CDB{Db: inner, n: map[string]int{}} }
@@ -42,6 +53,9 @@ func (c *CDB) Calls(method string) int {
 }
 
 func (c *CDB) call(method string) error {
+	if atomic.LoadInt32(&c.passive) == 1 {
+		return nil
+	}
 	c.mu.Lock()
 	c.n[method]++
 	h := c.hook
